@@ -45,6 +45,19 @@ REPRO_PAIRS = {
     "D-90": ("the value {'a': {'b': 1}}\nnext line here\n", "the value {'a': {'b': 1}} next line here\n", dict(width=88, semantic=False)),
 }
 
+FIXED_LAYOUT_PAIRS = [
+    ("see the [style\nguide] here\n\n[style guide]: /u\n", "see the [style guide] here\n\n[style guide]: /u\n"),
+    ("see [the text][style\nguide] here\n\n[style guide]: /u\n", "see [the text][style   guide] here\n\n[style guide]: /u\n"),
+    ("a [link\ntext](/u \"the\ntitle\") b\n", "a [link text](/u \"the title\") b\n"),
+    ("some *emphasised\ntext* and **strong\ntext** here\n", "some *emphasised text* and\n**strong text** here\n"),
+    ("Heading one\nline two\n===\n\ntext\n", "Heading one line two\n===\n\ntext\n"),
+    ("- item one\n  continues here\n- two\n", "- item one continues here\n- two\n"),
+    ("> quoted text\n> goes on\nlazily\n", "> quoted text goes on lazily\n"),
+    ("note[^n] x\n\n[^n]: first line\n    second line\n", "note[^n] x\n\n[^n]: first line second line\n"),
+    ("![alt\ntext](i.png) after\n", "![alt text](i.png) after\n"),
+    ("a `code\nspan` b\n", "a `code span` b\n"),
+]
+
 UNESC = re.compile(r"\\([-+*_=#>`~.)])")
 
 
@@ -118,6 +131,13 @@ def run(chk: Check) -> None:
             continue
         pairs.append((cs, a, b))
     gen_docs.AVOID = set()
+    # layouts that differ inside a construct (a line break within link text, a label, a title, an emphasis span, a table-free heading):
+    # written out by hand so that each is present in every run (several were defects once: ae2a212, 2465fe2, 6629c90)
+    for a, b in FIXED_LAYOUT_PAIRS:
+        if same_document(a, b):
+            pairs.append((0, a, b))
+        else:
+            skipped += 1
     chk.hist("pairs", f"kept={len(pairs)} skipped_not_same_document={skipped}")
     optsets = c02.all_option_sets(rng, len(pairs))
     cases = []
